@@ -1,6 +1,7 @@
 package simrt
 
 import (
+	"reflect"
 	"runtime"
 	"sync"
 	"time"
@@ -445,14 +446,14 @@ func CurTask() *Task {
 
 type simMutex struct {
 	owner   *Task // writer
-	readers map[*Task]int
+	readers int   // a read lock is not owned by a goroutine: RUnlock may come from another one
 	waiters []*Task
 }
 
 func (s *Sched) mutexFor(key any) *simMutex {
 	m := s.mutexes[key]
 	if m == nil {
-		m = &simMutex{readers: map[*Task]int{}}
+		m = &simMutex{}
 		s.mutexes[key] = m
 	}
 	return m
@@ -464,7 +465,7 @@ func (s *Sched) lock(key any, site int, shared bool) {
 	s.yield(site, 1)
 	m := s.mutexFor(key)
 	for {
-		free := m.owner == nil && (shared || len(m.readers) == 0)
+		free := m.owner == nil && (shared || m.readers == 0)
 		if free {
 			break
 		}
@@ -472,7 +473,7 @@ func (s *Sched) lock(key any, site int, shared bool) {
 		s.block(t)
 	}
 	if shared {
-		m.readers[t]++
+		m.readers++
 	} else {
 		m.owner = t
 	}
@@ -483,11 +484,8 @@ func (s *Sched) unlock(key any, site int, shared bool) {
 	t.SyncOps++
 	m := s.mutexFor(key)
 	if shared {
-		if m.readers[t] > 0 {
-			m.readers[t]--
-			if m.readers[t] == 0 {
-				delete(m.readers, t)
-			}
+		if m.readers > 0 {
+			m.readers--
 		}
 	} else {
 		m.owner = nil
@@ -545,13 +543,49 @@ func MutexTryLock(site int, m *sync.Mutex) bool {
 	if s := inSim(); s != nil {
 		sm := s.mutexFor(m)
 		s.cur.SyncOps++
-		if sm.owner == nil && len(sm.readers) == 0 {
+		if sm.owner == nil && sm.readers == 0 {
 			sm.owner = s.cur
 			return true
 		}
 		return false
 	}
 	return m.TryLock()
+}
+func RWTryLock(site int, m *sync.RWMutex) bool {
+	if rs := rInSim(); rs != nil {
+		if rs.tryLock(unsafe.Pointer(m), site) {
+			return m.TryLock()
+		}
+		return false
+	}
+	if s := inSim(); s != nil {
+		sm := s.mutexFor(m)
+		s.cur.SyncOps++
+		if sm.owner == nil && sm.readers == 0 {
+			sm.owner = s.cur
+			return true
+		}
+		return false
+	}
+	return m.TryLock()
+}
+func RWTryRLock(site int, m *sync.RWMutex) bool {
+	if rs := rInSim(); rs != nil {
+		if rs.tryRLock(unsafe.Pointer(m), site) {
+			return m.TryRLock()
+		}
+		return false
+	}
+	if s := inSim(); s != nil {
+		sm := s.mutexFor(m)
+		s.cur.SyncOps++
+		if sm.owner == nil {
+			sm.readers++
+			return true
+		}
+		return false
+	}
+	return m.TryRLock()
 }
 func RWLock(site int, m *sync.RWMutex) {
 	if rs := rInSim(); rs != nil {
@@ -767,29 +801,128 @@ func Go(site int, f func()) {
 // Bind0 makes the closure that stands for a method value of a sync primitive.
 func Bind0[T any](shim func(int, *T), site int, r *T) func() { return func() { shim(site, r) } }
 
-// LockerLock / LockerUnlock replace Lock/Unlock calls on a sync.Locker: the shim is chosen
-// by the dynamic type.
-func LockerLock(site int, l sync.Locker) {
+// LockerLock / LockerUnlock replace Lock/Unlock calls on a sync.Locker, DynLock those on any
+// other interface value: the shim is chosen by the dynamic type.
+func LockerLock(site int, l sync.Locker)   { DynLock(site, l, "Lock") }
+func LockerUnlock(site int, l sync.Locker) { DynLock(site, l, "Unlock") }
+
+// ownLockers: named types of the library that declare lock methods themselves.
+var ownLockers = map[string]bool{}
+
+func RegisterOwnLocker(name string) { ownLockers[name] = true }
+
+func DynLock(site int, l any, method string) {
 	switch m := l.(type) {
 	case *sync.Mutex:
-		MutexLock(site, m)
+		if method == "Lock" {
+			MutexLock(site, m)
+		} else {
+			MutexUnlock(site, m)
+		}
+		return
 	case *sync.RWMutex:
-		RWLock(site, m)
-	default:
-		SyncOp(site)
-		l.Lock()
+		switch method {
+		case "Lock":
+			RWLock(site, m)
+		case "Unlock":
+			RWUnlock(site, m)
+		case "RLock":
+			RWRLock(site, m)
+		case "RUnlock":
+			RWRUnlock(site, m)
+		}
+		return
+	}
+	rv := reflect.ValueOf(l)
+	t := rv.Type()
+	if t.Kind() == reflect.Ptr && t.Elem().PkgPath() == "sync" && t.Elem().Name() == "rlocker" {
+		// the value of (*RWMutex).RLocker(): Lock/Unlock are RLock/RUnlock of the mutex behind it
+		rw := (*sync.RWMutex)(rv.UnsafePointer())
+		if method == "Lock" {
+			RWRLock(site, rw)
+		} else {
+			RWRUnlock(site, rw)
+		}
+		return
+	}
+	et := t
+	for et.Kind() == reflect.Ptr {
+		et = et.Elem()
+	}
+	if !ownLockers[et.PkgPath()+"."+et.Name()] {
+		// the method is promoted from an embedded primitive: operate on that primitive, as the
+		// statically resolved calls on the same struct do
+		if p := embeddedPrimitive(rv, method, 0); p != nil {
+			DynLock(site, p, method)
+			return
+		}
+	}
+	// a lock type of its own: its methods are library code (instrumented) or foreign code
+	SyncOp(site)
+	switch method {
+	case "Lock":
+		l.(interface{ Lock() }).Lock()
+	case "Unlock":
+		l.(interface{ Unlock() }).Unlock()
+	case "RLock":
+		l.(interface{ RLock() }).RLock()
+	case "RUnlock":
+		l.(interface{ RUnlock() }).RUnlock()
 	}
 }
-func LockerUnlock(site int, l sync.Locker) {
-	switch m := l.(type) {
-	case *sync.Mutex:
-		MutexUnlock(site, m)
-	case *sync.RWMutex:
-		RWUnlock(site, m)
-	default:
-		SyncOp(site)
-		l.Unlock()
+
+// embeddedPrimitive finds the sync.Mutex / sync.RWMutex embedded (at the shallowest depth,
+// as method promotion does) in the struct v is or points to, and returns a pointer to it.
+func embeddedPrimitive(v reflect.Value, method string, depth int) any {
+	for v.Kind() == reflect.Ptr || v.Kind() == reflect.Interface {
+		if v.IsNil() {
+			return nil
+		}
+		v = v.Elem()
 	}
+	if v.Kind() != reflect.Struct || depth > 4 {
+		return nil
+	}
+	var next []reflect.Value
+	for i := 0; i < v.NumField(); i++ {
+		f := v.Type().Field(i)
+		if !f.Anonymous {
+			continue
+		}
+		fv := v.Field(i)
+		ft := f.Type
+		ptr := ft.Kind() == reflect.Ptr
+		if ptr {
+			ft = ft.Elem()
+		}
+		if ft.PkgPath() == "sync" && (ft.Name() == "Mutex" || (ft.Name() == "RWMutex")) {
+			if ft.Name() == "Mutex" && (method == "RLock" || method == "RUnlock") {
+				continue
+			}
+			var p unsafe.Pointer
+			if ptr {
+				if fv.IsNil() {
+					return nil
+				}
+				p = fv.UnsafePointer()
+			} else if fv.CanAddr() {
+				p = unsafe.Pointer(fv.UnsafeAddr())
+			} else {
+				return nil
+			}
+			if ft.Name() == "Mutex" {
+				return (*sync.Mutex)(p)
+			}
+			return (*sync.RWMutex)(p)
+		}
+		next = append(next, fv)
+	}
+	for _, fv := range next {
+		if p := embeddedPrimitive(fv, method, depth+1); p != nil {
+			return p
+		}
+	}
+	return nil
 }
 
 // shimOnces: the sync.Once values hidden inside closures made by OnceFunc/OnceValue(s).
@@ -799,21 +932,51 @@ var shimFuncPtrs = map[uintptr]bool{}
 
 func newShimOnce() *sync.Once {
 	o := &sync.Once{}
-	shimOnces = append(shimOnces, o)
+	if !Active {
+		// created by a package initialiser: part of the package state that is reset between
+		// cases. (One created while a simulation runs belongs to the call that made it; and
+		// tasks must not write simulator globals - in lane R the race detector would, rightly,
+		// report that.)
+		shimOnces = append(shimOnces, o)
+	}
 	return o
 }
 
-// OnceFunc, OnceValue, OnceValues replace the sync functions of the same name.
+// OnceFunc, OnceValue, OnceValues replace the sync functions of the same name, with the
+// same behaviour when f panics: the first call panics with f's value and so does every
+// later call.
+func onceGuard(f func()) (g func(), check func()) {
+	var valid bool
+	var p any
+	g = func() {
+		defer func() {
+			p = recover()
+			if !valid {
+				panic(p)
+			}
+		}()
+		f()
+		valid = true
+	}
+	return g, func() {
+		if !valid {
+			panic(p)
+		}
+	}
+}
+
 func OnceFunc(site int, f func()) func() {
 	o := newShimOnce()
-	r := func() { OnceDo(site, o, f) }
+	g, check := onceGuard(f)
+	r := func() { OnceDo(site, o, g); check() }
 	noteShimFunc(r)
 	return r
 }
 func OnceValue[T any](site int, f func() T) func() T {
 	o := newShimOnce()
 	var v T
-	r := func() T { OnceDo(site, o, func() { v = f() }); return v }
+	g, check := onceGuard(func() { v = f() })
+	r := func() T { OnceDo(site, o, g); check(); return v }
 	noteShimFunc(r)
 	return r
 }
@@ -821,7 +984,8 @@ func OnceValues[T1, T2 any](site int, f func() (T1, T2)) func() (T1, T2) {
 	o := newShimOnce()
 	var v1 T1
 	var v2 T2
-	r := func() (T1, T2) { OnceDo(site, o, func() { v1, v2 = f() }); return v1, v2 }
+	g, check := onceGuard(func() { v1, v2 = f() })
+	r := func() (T1, T2) { OnceDo(site, o, g); check(); return v1, v2 }
 	noteShimFunc(r)
 	return r
 }
